@@ -4,11 +4,11 @@
    [is_match want name h]: h is live, its owner compares equal to [name], its type is [want] and
    its class the requested one.  [chain]/[chain_ok]: from the question name, at every name that
    has no record of the requested type, follow the FIRST live CNAME header for that name and
-   consume it.  Partial: that [hs] are exactly the answer-section records of the message, in
-   order, is the reader's job (C02/C08/C09) and is tied by the rrset stream; so is the decoding
-   of the final name. *)
-From RsdnsModel Require Import Base Cursor RData Reader RecordSet.
-From RsdnsModel.Proofs Require Import CursorSafe Chase.
+   consume it.  from_msg IS this chase over headers that all belong to the answer section
+   (C06_from_msg_is_chase); that the reader hands out every answer record, in order, is the
+   reader's job (C02/C08/C09) and is tied by the rrset stream. *)
+From RsdnsModel Require Import Base Cursor Names Labels RData Reader RecordSet.
+From RsdnsModel.Proofs Require Import CursorSafe Chase FromMsg.
 Open Scope N_scope.
 
 (* what is returned is exactly the live matching records at the end of the chain, in message
@@ -48,3 +48,13 @@ Proof.
   intros msg ty rclass r Hty Hr fuel qname hs Hq Hw Hf. apply chase_defined; try assumption.
   pose proof (live_le_length hs). apply (PeanoNat.Nat.le_lt_trans _ (length hs)); assumption.
 Qed.
+
+(* RecordSet::from_msg returns what the chase over the collected headers returns, all of those
+   headers were attributed to the ANSWER section (records of the authority and additional sections
+   never contribute), the class is the question's, and the set's name is the decoded final name *)
+Theorem C06_from_msg_is_chase : forall msg ty rs, from_msg msg ty = Ok rs ->
+  exists r qname hs name c',
+    Forall in_answer hs /\
+    chase msg (S (length hs)) ty r qname (rs_class rs) hs = Ok (name, rs_ttl rs, rs_data rs) /\
+    read_name msg Heap name = Ok (rs_name rs, c').
+Proof. exact from_msg_is_chase. Qed.
